@@ -46,6 +46,13 @@ def ops_for(n, reduced=False):
     ops.append(['insert', 0, '{a]', False])
     ops.append(['insert', n, '[a', False])
     ops.append(['extend', ['{b}', '[a]'], [True, False]])
+    # list.extend takes any iterable, one-shot ones included
+    ops.append(['extend', ['{b}', '[c]'], [False, True], 'gen'])
+    if not reduced:
+        ops.append(['extend', ['[a]', '{b}'], [True, True], 'iter'])
+        ops.append(['extend', ['{a}'], [False], 'tuple'])
+        ops.append(['extend', ['[c]', '{}'], [False, False], 'reversed'])
+        ops.append(['extend', ['{b}', '{a]'], [True, False], 'gen'])
     if not reduced:
         ops.append(['extend', ['{a}'], [False]])
         ops.append(['extend', [], []])
@@ -124,7 +131,17 @@ def apply_real(args, op):
         if name == 'insert':
             return ('val', args.insert(op[1], mk(op[2], op[3])))
         if name == 'extend':
-            return ('val', args.extend([mk(g, o) for g, o in zip(op[1], op[2])]))
+            items = [mk(g, o) for g, o in zip(op[1], op[2])]
+            how = op[3] if len(op) > 3 else 'list'
+            if how == 'iter':
+                items = iter(items)
+            elif how == 'gen':
+                items = (x for x in items)
+            elif how == 'tuple':
+                items = tuple(items)
+            elif how == 'reversed':
+                items = reversed(items[::-1])
+            return ('val', args.extend(items))
         if name == 'remove':
             return ('val', args.remove(mk(op[1], op[2])))
         if name == 'pop':
@@ -266,6 +283,12 @@ class C18(Prop):
                 return [fail('owner-serialisation', 'step %d: document prints %r'
                              % (step, str(soup)))]
             ctx.seen('state', tuple(L)[:4])
+        # a list can be built from any iterable of its elements
+        from TexSoup.data import TexArgs
+        clone = TexArgs(g for g in owner.args)
+        if [str(g) for g in clone] != L:
+            return [fail('args!=list', 'TexArgs(<generator over the arguments>) is %r, expected %r'
+                         % ([str(g) for g in clone], L))]
         return []
 
     def shrink(self, p, still_fails):
